@@ -276,6 +276,14 @@ func Main() string { var once sync.Once; var wg sync.WaitGroup; n := 0; for i :=
 func Main() string { var mu sync.RWMutex; var wg sync.WaitGroup; x := 0; wg.Add(3); go func() { mu.Lock(); x = 1; mu.Unlock(); wg.Done() }(); for i := 0; i < 2; i++ { go func() { mu.RLock(); _ = x; mu.RUnlock(); wg.Done() }() }; wg.Wait(); mu.RLock(); v := x; mu.RUnlock(); return fmt.Sprint(v) }`},
 	{name: "unbuffered-handoff-publishes", want: []string{"7"}, src: `import "fmt"
 func Main() string { c := make(chan struct{}); x := 0; go func() { x = 7; c <- struct{}{} }(); <-c; return fmt.Sprint(x) }`},
+	{name: "write-in-if-init-races", want: []string{"race"}, src: `import "sync"
+func two() (int, error) { return 1, nil }
+func Main() string { var wg sync.WaitGroup; x := 0; var err error; f := func() { var e error; if x, e = two(); e != nil { return } }; _ = err; for i := 0; i < 2; i++ { wg.Add(1); go func() { f(); wg.Done() }() }; wg.Wait(); _ = x; return "done" }`},
+	{name: "write-in-if-init-ordered", want: []string{"1"}, src: `import ("fmt"; "sync")
+func two() (int, error) { return 1, nil }
+func Main() string { var wg sync.WaitGroup; var mu sync.Mutex; x := 0; f := func() { mu.Lock(); defer mu.Unlock(); var e error; if x, e = two(); e != nil { return } }; for i := 0; i < 2; i++ { wg.Add(1); go func() { f(); wg.Done() }() }; wg.Wait(); return fmt.Sprint(x) }`},
+	{name: "gomaxprocs-is-simulated", want: []string{"ok"}, src: `import "runtime"
+func Main() string { n := runtime.GOMAXPROCS(0); if n < 1 || n != runtime.NumCPU() { return "bad" }; sem := make(chan struct{}, n); sem <- struct{}{}; <-sem; return "ok" }`},
 	{name: "buffered-does-not-publish-back", want: []string{"race"}, src: `func Main() string { c := make(chan struct{}, 1); x := 0; go func() { <-c; x = 7 }(); c <- struct{}{}; _ = x; return "done" }`},
 	{name: "range-nil-channel", want: []string{"deadlock"}, src: `func Main() string { var c chan int; for range c { }; return "unreachable" }`},
 	{name: "time-is-refused", refuse: true, src: `import "time"
